@@ -105,6 +105,9 @@ fn rnd_qubits(r: &mut impl Rng, max: usize) -> Vec<u64> {
 }
 
 pub fn drive(ctx: &Ctx) -> Summary {
+    if std::env::var("QV_LOUD").is_ok() {
+        let _ = std::panic::take_hook(); // debugging aid: show panic messages of the driver
+    }
     let n = ctx.arg_u64("n", 300);
     let path = ctx.arg_str("out").expect("--out");
     let mut out = std::io::BufWriter::new(std::fs::File::create(path).expect("create trace"));
